@@ -98,6 +98,8 @@ def grid(tier):
                  head % ("NO", "") + "1.0 47# 10.5\n2.0 40# 11.5\n"):
         yield {"input": "lit", "text": text, "cfg1": {"wrap": True}, "cfg2": {"wrap": False}, "fmt": 0}
         yield {"input": "lit", "text": text, "cfg1": {"version": 1.2}, "cfg2": {"version": 2, "wrap": True}, "fmt": 0}
+    for k2 in range(12):
+        yield {"input": "gen", "seed": 7300 + k2, "pair": k2 % len(GRID_PAIRS), "fmt": 0, "gen_version": 2 if k2 % 2 else 1.2, "src_case": ["upper", "lower", "preserve"][k2 % 3], "decimal_units": True}
     for k2 in range(3):      # witness of the known finding: a date-like text curve, wrapped vs unwrapped
         yield {"input": "gen", "seed": 7000 + k2, "cfg1": {"version": 2, "wrap": True}, "cfg2": {"version": 2, "wrap": False}, "fmt": 0, "gen_version": 2, "src_case": "upper", "date_curve": True, "wide": 7}
     # wide tables: data rows of every length relative to the 79 / 255 / 256-character marks, with and without wrapping
@@ -170,6 +172,12 @@ def run_case(case, ctx):
                 nrows = len(spec["curves"][0][4])
                 spec["curves"].append(["DATE", "", "", "text curve of dates", ["2018-05-%02d" % (i + 1) for i in range(nrows)]])
             obj = lasobj.build(lasio, spec)
+            if case.get("decimal_units"):
+                # units that are decimal numbers, on lines that are the widest of ~Well in one layout (long value) or the other (long description)
+                obj.well.append(lasio.HeaderItem("FREQ", "2.5", 20000 * 10 ** (case["seed"] % 9), "TOOL FREQ"))
+                obj.well.append(lasio.HeaderItem("GAIN", "0.5", 7, "a description that is by far the longest of this section " + "." * (case["seed"] % 30)))
+                obj.params.append(lasio.HeaderItem("SCAL", "8.5", "a value that is by far the longest of this section " + "." * (case["seed"] % 30), "s"))
+                ctx.count("inputs_with_decimal_number_units")
             if case["seed"] % 2:
                 for it in obj.well:           # a ~Well section whose descriptions are short or empty
                     it.descr = it.descr[:case["seed"] % 3]
